@@ -76,6 +76,21 @@ SPECS = [
          ],
          raises={'*': {'ensures': ["raised('e1') or raised('e2')"]}},
          serves=['C06', 'C02', 'C04']),
+    dict(id='S-Interp-implicit-mixed',
+         # implicit translation of a text takes the text as ONE message only if every ${...} in it is
+         # a plain name; a single other expression - wherever it stands - means the parts are put in
+         # place of their ${...} one by one ("the text put in place of ${expr} is the value of expr")
+         text='<div><p>a ${(e1)} b ${e2} c</p></div>',
+         options={'implicit_i18n_translate': True},
+         ensures=[
+             "trace('e1', 'e2')",
+             "translate_calls() == 0",
+             "S() == S0() + '<div><p>a ' + ('' if %s is None else piece(%s)) + ' b ' + "
+             "('' if %s is None else piece(%s)) + ' c</p></div>'" % (
+                 "quoted(val(1), '\\0', '&#0;', None, None)", "quoted(val(1), '\\0', '&#0;', None, None)", "quoted(val(2), '\\0', '&#0;', None, None)", "quoted(val(2), '\\0', '&#0;', None, None)"),
+         ],
+         raises={'*': {'ensures': ["raised('e1') or raised('e2')"]}},
+         serves=['C06', 'C10']),
     dict(id='S-Interp-percent',
          # "everything else is copied": a literal % next to an interpolation is not a format directive
          text='A<p t="${e1} 100% %s">x ${e2}%d %</p>B',
